@@ -29,6 +29,11 @@ pub enum Item {
 type Doc = Vec<Item>;
 
 fn kind_text(k: &str, variant: usize) -> &'static str {
+    // a document that defines the anchor `a` comes in three shapes; the third nests a second anchor inside the first
+    // (an anchored container is stored when it closes, i.e. after the anchors inside it)
+    if k == "D" && variant % 3 == 2 {
+        return "&a [&b 4]";
+    }
     match (k, variant % 2) {
         ("V", 0) => "[1, 2]",
         ("V", _) => "\n- 1\n- 2",
